@@ -99,6 +99,30 @@ def oracle_methods(ck, tier, deep):
                                          f"{np.dtype(dt)} input differs from its float copy by {di:.3g} (relative)")
             except Exception as e:
                 ck.violation(dict(sig, clause="exception"), base, f"{type(e).__name__}: {e}")
+    # the narrowest admissible half-images (e.g. quadrants of 3- and 5-column images): still a fixed linear operator, or a refusal
+    for label, name, f, d, opts in cases():
+        for n in (2, 3):
+            X, Y = rng.normal(size=(3, n)), rng.normal(size=(3, n))
+            T = lambda Z: quiet(f, Z, direction=d, **opts)
+            sig = dict(site=name, direction=d, opts=label.split("/")[-1])
+            base = dict(method=name, direction=d, opts={k: (list(v) if isinstance(v, tuple) else v) for k, v in opts.items()}, n=n)
+            ck.count(("S.lin-narrow", label, n), suite="S.linearity")
+            try:
+                t1 = np.array(T(X), dtype=float)
+                np.zeros((64, 64)) + rng.normal()            # (stir the allocator: uninitialised output would show)
+                junk = rng.normal(size=(3, n)) * 1e150
+                del junk
+                t2 = np.array(T(X), dtype=float)
+            except Exception:
+                continue                                      # refusing a width is not a linearity defect (C20 owns refusals)
+            if not (np.all(np.isfinite(t1)) and np.array_equal(t1, t2)):
+                ck.violation(dict(sig, clause="fixed-operator-narrow"), dict(base, X=X.tolist(), first=t1.tolist(), second=t2.tolist()),
+                             f"{n}-column half-image: two identical calls returned different or non-finite results")
+                continue
+            df = lin_defect(T, X, Y, 1.5, -0.5)
+            if not (df <= 1e-9):
+                ck.violation(dict(sig, clause="linearity"), dict(base, a=1.5, b=-0.5, X=X.tolist(), Y=Y.tolist()),
+                             f"{n}-column half-image: T(aX+bY) != aT(X)+bT(Y), relative defect {df:.3g}")
     ck.sample(dict(suite="S.linearity", example_case=cases()[3][0], sizes=sizes))
 
 
@@ -179,6 +203,11 @@ def oracle_tools(ck, tier, deep):
     tools.append(("rbasex/forward/order4", lambda Z: abel.rbasex.rbasex_transform(Z, direction="forward", order=4)[0]))
     tools.append(("rbasex/L2", lambda Z: abel.rbasex.rbasex_transform(Z, reg=("L2", 5.0))[1].cos()))
     tools.append(("linbasex/image", lambda Z: abel.linbasex.linbasex_transform_full(Z)[0]))
+    tools.append(("linbasex/image/3angles", lambda Z: abel.linbasex.linbasex_transform_full(
+        Z, proj_angles=[0, np.pi / 4, np.pi / 2], legendre_orders=[0, 2, 4])[0]))
+    tools.append(("Distributions/remap/corner", lambda Z: vmi.Distributions(origin=(0, 0), order=2, method="remap").image(Z).cos()))
+    tools.append(("Distributions/linear/uint8-weights", lambda Z: vmi.Distributions(
+        origin=(5, 6), order=2, weights=np.full(Z.shape, 3, np.uint8)).image(Z).cos()))
     for m, ax, uq, origin in [("hansenlaw", None, (True,) * 4, "none"), ("three_point", 0, (True, True, False, True), (5, 6)),
                               ("daun", 1, (True,) * 4, (4.5, 6.2)), ("basex", (0, 1), (False, True, True, True), "none"),
                               ("onion_bordas", None, (True,) * 4, (6, 5)), ("two_point", (0, 1), (True,) * 4, (5.5, 6.5))]:
@@ -203,10 +232,12 @@ def oracle_tools(ck, tier, deep):
                              f"{label}: T(aX+bY) != aT(X)+bT(Y), relative defect {df:.3g}")
                 break
             # detector counts: an integer image is transformed as its float64 copy (centring with fractional origins included)
-            if label.startswith("Transform/"):
-                Xi = np.round(X * 40).astype([np.int32, np.uint16, np.int64][int(rng.integers(0, 3))])
+            if label.startswith(("Transform/", "linbasex/image", "Distributions/remap/corner", "Distributions/linear/uint8", "symmetrise/")):
+                Xi = np.round(X * 40).astype([np.int32, np.uint16, np.int64, np.uint8][int(rng.integers(0, 4))])
                 if Xi.dtype == np.uint16:
                     Xi = np.abs(np.round(X * 40)).astype(np.uint16)
+                if Xi.dtype == np.uint8:
+                    Xi = np.clip(np.abs(np.round(X * 80)), 0, 255).astype(np.uint8)
                 try:
                     ti, tf = np.asarray(quiet(T, Xi), float), np.asarray(quiet(T, Xi.astype(np.float64)), float)
                 except Exception as e:
